@@ -13,10 +13,10 @@ P = {
          "Decides map-order independence and absence of ambient inputs on the plugin path, that the accept/reject/emit decision is a total conflict-free function of the option lattice agreeing with doc/method-options.md, that N/A options do not influence emitted code, that templates only reference existing runtime fields/identifiers/functions, that the reserved-name set covers the static code's declarations, and that rejections are fatal. Necessary structural conditions.",
          "Not decided: that the output compiles for every service definition; termination/panic-freedom for every input; protogen internals.", "DESIGN.md section 3, C16"),
  "C17": (True, "static analysis: descriptor decoding from committed byte literals + typed-AST binding rules; expansion of the current template constants by the checker's own template engine with a reference funcMap and token-level comparison with the committed files; AST equality of the static bundle",
-         "Decides, against the embedded descriptors, name/type/call-type/reply-discipline/QuorumSpec binding of every committed stub and handler (57 methods), and that each of the 19 committed generated files of the root module equals the expansion of the current templates (comments and formatting aside), that the bundled static code equals the dev sources, and the version marker. Necessary structural conditions; the reference funcMap is cross-checked against the generator's only for option dependencies and helper shapes.",
+         "Decides, against the embedded descriptors, name/type/call-type/reply-discipline/QuorumSpec binding of every committed stub and handler (57 methods), and that each of the 19 committed generated files of the root module equals the expansion of the current templates (comments and formatting aside), that the bundled static code equals the dev sources, the version marker, and - for every input proto - that the templates derive the client's method string and the server's registration name by the same expression. The thorough tier adds the examples module (20th file, 62 methods). Necessary structural conditions; the reference funcMap is cross-checked against the generator's only for option dependencies and helper shapes.",
          "Not decided: run-time equivalence of fresh and committed stubs; services that are not committed; doc comments copied from .proto files.", "DESIGN.md section 3, C17"),
  "C13": (True, "static analysis: enumeration of panicking constructs on the decode path with dominance-checked guards and a reasoned table with machine-checked side conditions; sibling agreement (frame table, direction table) between encoder and decoder",
-         "Decides that no unguarded panicking construct exists on gorums' part of the decode path, that gorumsMarshal and gorumsUnmarshal agree on the frame table and AllowPartial, the direction table (request/response types), the error defaults of the codec's type switches, status transport, and that a message-carrying reply is delivered only when its method matches the pending call's. Necessary structural conditions; value round-trip equality is delegated to protobuf.",
+         "Decides that no unguarded panicking construct exists on gorums' part of the decode path, that gorumsMarshal and gorumsUnmarshal agree on the frame table and AllowPartial, the direction table (request/response types), the error defaults of the codec's type switches, status transport, that a message-carrying reply is delivered only when its method matches the pending call's, and that decoding overwrites (no Merge into a reused target). Necessary structural conditions; value round-trip equality is delegated to protobuf.",
          "Not decided: round-trip equality for every value; panics inside protobuf/gRPC.", "DESIGN.md section 3, C13"),
  "C18": (True, "static analysis: insertion/deletion pairing over the router model, frozen goroutine lifetime table with per-class termination rules, escape check on per-call allocations",
          "Decides that router entries are inserted at one site and removed on every delivery/answer path (re-using the C05/C07/C06/C09 rules), that every go statement of the client runtime is classified per node / per request / per call and satisfies its class's termination rule, and that reply channels and reply maps are not stored into shared state. Necessary structural conditions.",
@@ -28,8 +28,8 @@ P = {
          "Decides for every newConfig implementation and option constructor: sorted-by-ID before every success return, de-duplication by a call-local id set, address comparison before a pooled node serves a requested address, no append/sort on operand slices, atomic test-and-insert in AddNode, non-emptiness test before success, shape of And/WithNewNodes/Except/WithoutNodes/WithNodeIDs, purity of the accessors, pooled identity of every node that reaches a result. Necessary structural conditions.",
          "Not decided: hash-collision freedom (impossible); G3 decides that a collision is reported.", "DESIGN.md section 3, C14"),
  "C15": (True, "static analysis: lockset/ownership table over shared library state (guarded-by via lock-state dataflow, atomic-only, write-once-before-publication, no-escape) with goroutine roots from go statements",
-         "Decides, for every field of the frozen shared-state table (27 rows: channel, RawNode, RawManager, Correctable, Async), that all accesses follow the row's discipline; closures and goroutines start with no lock. A violated row is an unsynchronised pair of accesses that public-API use can overlap, i.e. a data race; a clean table is necessary, not sufficient.",
-         "Not decided: races in user code, gRPC, protobuf; memory outside the table.", "DESIGN.md section 3, C15"),
+         "Decides, for every field of the five structs shared between goroutines (channel, RawNode, RawManager, Correctable, Async: 36 table rows confirmed by reading; fields the table does not know must be a synchronisation primitive, never written after construction, atomic-only, under one common mutex or confined to one library goroutine), that all accesses follow the discipline; that method calls on pointees that are not safe for concurrent use (e.g. *rand.Rand) are serialised; that package-level variables are never modified after initialisation without a package-level lock; closures and goroutines start with no lock. A violation is an unsynchronised pair of accesses that public-API use can overlap, i.e. a data race; a clean result is necessary, not sufficient.",
+         "Not decided: races in user code, gRPC, protobuf; memory reachable only through other structs than the five (e.g. the server's handler map, whose register-before-serve contract is documented API).", "DESIGN.md section 3, C15"),
  "C10": (True, "static analysis: CFG path rules on sender/connect/reconnect/NodeStream, provenance of stream contexts and metadata, goroutine-root call paths for the wake-up rule",
          "Decides retry-per-request (isConnected test and connect before a request's fate; connect dials+streams or reconnects), that every stream context derives from the channel's parent context built by newContext with manager and per-node metadata, that the server callback runs once per stream before the receive loop with the stream context, that the reader's back-off wait is woken by whoever else re-establishes the stream, and that the reader is started once. Necessary structural conditions.",
          "Not decided: that redial succeeds; promptness in seconds.", "DESIGN.md section 3, C10"),
@@ -37,19 +37,19 @@ P = {
          "Decides the structural chain behind per-node FIFO: synchronous hand-off into one queue per node on the caller's goroutine for every targeted node before go/return, one producer function, one consumer goroutine started once per node, one stream writer called once per dequeued request, and on the server: release-before-next-receive, one handler start per freshly allocated received message, handler/stub name bijection. Necessary structural conditions.",
          "Not decided: in-order delivery by gRPC and Go channels (trusted); liveness.", "DESIGN.md section 3, C03"),
  "C04": (True, "static analysis: must-pass-through in NodeStream, value-flow of the per-connection mutex, closure rules on generated handlers",
-         "Decides the one-handler-at-a-time protocol's structure: lock re-acquired between a handler start and the next receive, the mutex is per connection and only released by Release (exactly once.Do(mut.Unlock), fresh Once per start) or at stream exit, every generated handler defers Release, the stream has a single writer and SendMessage is bounded by the stream context. Necessary structural conditions.",
+         "Decides the one-handler-at-a-time protocol's structure: lock re-acquired between a handler start and the next receive, the mutex is per connection and only released by Release (exactly once.Do(mut.Unlock), fresh Once per start) or at stream exit, the handler's context is the stream's own, every generated handler defers Release, the stream has a single writer and SendMessage is bounded by the stream context. Necessary structural conditions.",
          "Not decided: observed overlap at run time; handlers that never return.", "DESIGN.md section 3, C04"),
  "C06": (True, "static analysis: SSA provenance per loop iteration (phi edges vs nil-test edges), iteration-shape counting, condition-consistent reachability for the no-send-waiting edge",
          "Decides the per-node argument dataflow (d.Message vs PerNodeArgFn(d.Message, n.id) of this iteration's node, skip exactly on !IsValid, enqueued on that node), at-most-once hand-off/send, that one-way calls wait only for as many send confirmations as they enqueued and for none with no-send-waiting, the confirmation's placement and guard, and one-way handler/stub shape in generated code. Necessary structural conditions.",
          "Not decided: exactly-once delivery when reachable (liveness); message equality at the server (codec).", "DESIGN.md section 3, C06"),
  "C09": (True, "static analysis: lock-state dataflow (may/must held) + interprocedural blocking classifier + goroutine-root call paths; lock-order graph",
-         "Decides the absence of the structural ingredients of a permanent wedge: no unbounded blocking operation under a client-side mutex (with machine-checked side conditions for reply sends and stream operations), re-check under the write lock in reconnect, streaming-capable reply channels, deferred router deletion for stream correctables, acyclic lock order. Two genuine defects of the pinned tree are recorded as known findings (W1a stale-flag wedge, W1b/W3 streaming delivery under the router lock). Necessary structural conditions.",
+         "Decides the absence of the structural ingredients of a permanent wedge: no unbounded blocking operation under a client-side mutex (with machine-checked side conditions for reply sends and stream operations), re-check under the write lock in reconnect, streaming-capable reply channels, deferred router deletion for stream correctables, acyclic lock order, the stream is marked broken only on transport errors and only while streamMut is held or before a reader exists, the per-node goroutines end only when the node is closed. Two genuine defects of the pinned tree are recorded as known findings (W1a stale-flag wedge, W1b/W3 streaming delivery under the router lock). Necessary structural conditions.",
          "Not decided: liveness of a healthy node; gRPC internals; quorum-function latency.", "DESIGN.md section 3, C09"),
  "C08": (True, "static analysis: interprocedural blocking-operation classifier with parameter-binding provenance of the call context; dominance / must-pass-through in sendMsg",
-         "Decides that no wait on a call's path ignores the call's context: every blocking operation reachable from the six entry points and the two per-call goroutines is a select with a case on Done() of the call's own context (followed through call-site parameter bindings and request literals), a capacity-bounded reply send or a short mutex hold; the stream write is cancellable (ctx test, watcher goroutine, close(done)); RPCCall returns ctx.Err(). A necessary condition for 'returns promptly', not a bound.",
+         "Decides that no wait on a call's path ignores the call's context: every blocking operation reachable from the six entry points and the two per-call goroutines is a select with a case on Done() of the call's own context (followed through call-site parameter bindings and request literals), a capacity-bounded reply send or a short mutex hold; the stream write is cancellable (ctx test, watcher goroutine, close(done)); RPCCall returns ctx.Err(); every cycle of a reply loop observes the context. A necessary condition for 'returns promptly', not a bound.",
          "Not decided: the delay itself; gRPC's reaction to cancellation; select fairness.", "DESIGN.md section 3, C08"),
  "C05": (True, "static analysis: who-may-X over SSA, lock-state dataflow (guarded-by, same-critical-section), dominance and capacity side conditions",
-         "Decides id uniqueness plumbing (one fresh atomic id per invocation shared by all its messages), register-before-queue in enqueue, that the router map is only touched under its mutex, deliver-then-delete atomicity with the streaming exemption, the id echo on the server side (WrapMessage writes only Status; generated handlers echo in.Metadata), reply-channel capacity >= number of registering enqueues, and that every response names the producing node. Necessary structural conditions.",
+         "Decides id uniqueness plumbing (one fresh atomic id per invocation shared by all its messages), register-before-queue in enqueue, that the router map is only touched under its mutex, deliver-then-delete atomicity with the streaming exemption, the id echo on the server side (WrapMessage writes only Status; generated handlers echo in.Metadata), reply-channel capacity >= number of registering enqueues on a channel made by that call, and that every response names the producing node. Necessary structural conditions.",
          "Not decided: transport cross-talk; 64-bit counter wrap; reply content.", "DESIGN.md section 3, C05"),
  "C07": (True, "static analysis: must-pass-through on the sender/receiver/enqueue CFGs, provenance of error values, router deletion rule",
          "Decides that errors never enter the reply set and are recorded once with their node, that a dequeued request is sent or answered with a non-nil error, that a stream read error fails every pending call with an Unavailable error, that handler statuses travel (WrapMessage / receiver), and that an error delivery always removes the router (at most one error per node and call). Necessary structural conditions.",
@@ -64,7 +64,7 @@ P = {
          "Decides the exit structure of the three reply loops (every completion is success / Incomplete-under-exhaustion / ctx.Err()-inside-ctx.Done-case, with consistent accounting), that the exhaustion test is evaluated before every wait including the first, the send-loop counting invariant (#enqueue + #decrement = 1 per iteration), the Async future protocol and QuorumCallError.Is. Necessary structural conditions.",
          "Not decided: wall-clock promptness; scheduler fairness of select.", "DESIGN.md section 3, C02"),
  "C19": (True, "static analysis: finite decision-table extraction from the AST (strict-weak-order axioms) + SSA shape/provenance rules",
-         "Decides, on the current source, that each provided sort key is a strict weak order (exhaustive over the abstract domain of the projections it compares) and that MultiSorter.Less/Swap/Len/Sort have the lexicographic-combinator and permutation shape. A necessary structural condition, not a proof of the sorting behaviour.",
+         "Decides, on the current source, that each provided sort key is a strict weak order (exhaustive over the abstract domain of the projections it compares) that ID and Port order increasingly by an integer projection (the port number, not its text) and LastNodeError puts nodes without error first, and that MultiSorter.Less/Swap/Len/Sort have the lexicographic-combinator and permutation shape (sort.Sort or sort.Stable on the receiver; no unstable pass per key). A necessary structural condition, not a proof of the sorting behaviour.",
          "Not decided: sort.Sort itself; OrderedBy() with no key; user-defined keys.", "DESIGN.md section 3, C19"),
 }
 PENDING = "check under construction in this round (design in DESIGN.md section 3); not claimed at this commit"
